@@ -27,11 +27,39 @@ class Inconclusive(BaseException):
     """solver said unknown / budget exhausted"""
 
 
-STATS = dict(paths=0, checks=0, solver_s=0.0, cuts=0)
+STATS = dict(paths=0, checks=0, solver_s=0.0, cuts=0, cross=0, cross_agree=0, cross_s=0.0)
+CROSS_EVERY = int(__import__('os').environ.get('VERIF_CROSS_EVERY', '0') or 0)
+_cross_counter = [0]
 
 
 def reset_stats():
-    STATS.update(paths=0, checks=0, solver_s=0.0, cuts=0)
+    STATS.update(paths=0, checks=0, solver_s=0.0, cuts=0, cross=0, cross_agree=0, cross_s=0.0)
+
+
+def exactly_one(bs):
+    """plain encoding (no pseudo-boolean builtins: the obligations are re-decided by cvc5)"""
+    bs = list(bs)
+    return z3.And([z3.Or(bs)] + [z3.Not(z3.And(bs[i], bs[j])) for i in range(len(bs)) for j in range(i + 1, len(bs))])
+
+
+def at_most_one(bs):
+    bs = list(bs)
+    return z3.And([z3.Not(z3.And(bs[i], bs[j])) for i in range(len(bs)) for j in range(i + 1, len(bs))] + [z3.BoolVal(True)])
+
+
+def _cvc5_verdict(smt2_text):
+    import cvc5
+    slv = cvc5.Solver(cvc5.TermManager()) if hasattr(cvc5, 'TermManager') else cvc5.Solver()
+    parser = cvc5.InputParser(slv)
+    parser.setStringInput(cvc5.InputLanguage.SMT_LIB_2_6, "(set-logic ALL)\n" + smt2_text, "obligation")
+    sm = parser.getSymbolManager()
+    out = []
+    while True:
+        cmd = parser.nextCommand()
+        if cmd.isNull():
+            break
+        out.append(cmd.invoke(slv, sm))
+    return ''.join(out).strip().splitlines()[-1] if ''.join(out).strip() else 'unknown'
 
 
 def _check(solver, *assumptions):
@@ -557,7 +585,7 @@ def ite(c, a, b):
 
 # ------------------------------------------------------------------ obligations
 
-def valid(claim, ctx=None):
+def valid(claim, ctx=None, obligation=False):
     """Is claim (z3 Bool) implied by the path condition?  -> (True, None) | (False, model)"""
     ctx = ctx or cur()
     claim = z3.simplify(claim) if z3.is_expr(claim) else z3.BoolVal(bool(claim))
@@ -569,6 +597,25 @@ def valid(claim, ctx=None):
         ctx.solver.add(z3.Not(claim))
         r = _check(ctx.solver)
         m = ctx.solver.model() if r == z3.sat else None
+        if CROSS_EVERY:
+            _cross_counter[0] += 1
+            if _cross_counter[0] % CROSS_EVERY == 0 or (obligation and r == z3.sat):
+                # second opinion: the same query (path condition and negated obligation) as
+                # SMT-LIB2 text, decided by cvc5; a disagreement is never a verdict
+                t0 = time.perf_counter()
+                try:
+                    v = _cvc5_verdict(ctx.solver.to_smt2())
+                except Exception as e:      # noqa
+                    v = 'error: %r' % (e,)
+                STATS['cross_s'] += time.perf_counter() - t0
+                STATS['cross'] += 1
+                if v == str(r):
+                    STATS['cross_agree'] += 1
+                elif v in ('sat', 'unsat'):
+                    raise Inconclusive("solver disagreement: z3 says %s, cvc5 says %s" % (r, v))
+                else:
+                    STATS.setdefault('cross_inconclusive', 0)
+                    STATS['cross_inconclusive'] = STATS.get('cross_inconclusive', 0) + 1
     finally:
         ctx.solver.pop()
     return r == z3.unsat, m
